@@ -33,7 +33,7 @@ def conclude(agg):
     c = agg['counters']
     return [f'monitor counter {k} is zero' for k in ('files', 'iopath_entries', 'interconnect_entries', 'split_instances', 'multi_toplevel_blocks', 'edge_qualified',
                                                      'empty_triples', 'partial_triples', 'single_value_lists', 'array_cells_compared', 'nonzero_expected', 'branchfork_cases',
-                                                     'plain_cases', 'escaped_instances', 'timingcheck_blocks', 'overlapping_entries')
+                                                     'plain_cases', 'escaped_instances', 'timingcheck_blocks', 'overlapping_entries', 'second_circuit_same_delayfile')
             if c.get(k, 0) == 0]
 
 
@@ -257,7 +257,7 @@ def check_case(ctx, rng, idx):
         for k, v in stats.items():
             ctx.count(k, v)
         for label, fn, exp in (('iopaths', df.iopaths, exp_io), ('interconnects', df.interconnects, exp_ic)):
-            if label == 'interconnects' and df._interconnects is None:
+            if label == 'interconnects' and getattr(df, '_interconnects', ()) is None:
                 if exp.any():
                     ctx.violation('interconnect-table', 'interconnects() has no top-level block although the file contains INTERCONNECT entries', case)
                 continue
@@ -276,6 +276,19 @@ def check_case(ctx, rng, idx):
                 l = c.lines[li]
                 ctx.violation('delay-table', f'{label}()[dataset {d}, line {li} ({l.driver.name} -> {l.reader.name} pin {l.reader_pin}), in-pol {ip}, out-pol {op}] = '
                               f'{got[d, li, ip, op]}, the file states {exp[d, li, ip, op]} ({int((got != exp).sum())} entries differ; branchforks={bf})', case)
+                break
+        # the same DelayFile object applied to a second circuit with the same module name (the other fork style): nothing may carry over
+        # from the first circuit - the result must be that of a freshly parsed DelayFile
+        c2 = verilog.parse(vtext, tlib=lib, branchforks=not bf)
+        fresh = sdf.parse(stext)
+        for label in ('iopaths', 'interconnects'):
+            if label == 'interconnects' and getattr(df, '_interconnects', ()) is None:
+                continue
+            a, b_ = getattr(df, label)(c2, lib), getattr(fresh, label)(c2, lib)
+            ctx.count('second_circuit_same_delayfile')
+            if np.shape(a) != np.shape(b_) or not np.array_equal(a, b_):
+                ctx.violation('delay-table', f'{label}(): a DelayFile that annotated a circuit before gives another array for a second circuit of the same name '
+                              f'(branchforks={not bf}) than a freshly parsed DelayFile: shapes {np.shape(a)} / {np.shape(b_)}', case)
                 break
     ctx.case(None, stats['split_instances'] > 0 and stats['edge_qualified'] > 0, key=[vtext, case.get('sdf'), bf])
     if idx < 2:
